@@ -5,7 +5,6 @@ integer arithmetic by invariants), MC_NumFmt.cfg (quick) / MC_NumFmt_thorough.cf
 Conformance: spec/Trace_NumFmt.tla judges every recorded call of the library (driver: harness/src/bin/numfmt.rs).
 """
 import json
-import re
 import struct
 import vlib
 
@@ -38,6 +37,8 @@ def canon(neg, ip, fp):
             return None
     if nsig > 15:
         return None
+    if ip == "0" and not fp:
+        neg = False                       # negative zero is only driven explicitly (General, built-in ids)
     return ("-" if neg else "") + ip + ("." + fp if fp else "")
 
 
@@ -48,7 +49,7 @@ def num_item(s, k, th, pct):
             "k": k, "th": th, "pct": pct, "fmt": pat_text(k, th, pct)}
 
 
-BOUNDARY = ["0", "-0", "1", "-1", "5", "100", "1000", "0.5", "-0.5", "1.5", "2.5", "-2.5", "99.5", "999.5", "0.05",
+BOUNDARY = ["0", "1", "-1", "5", "100", "1000", "0.5", "-0.5", "1.5", "2.5", "-2.5", "99.5", "999.5", "0.05",
             "0.005", "0.95", "0.995", "9.995", "1.005", "1.99", "9.99", "99.99", "0.999", "0.0049", "0.015", "0.285",
             "1.45", "0.145", "1234.5", "-1234.5", "1234567.891", "999999.5", "999.9995", "0.12345", "0.0000001",
             "0.00000015", "0.0000005", "0.00001234", "123456789012345", "999999999999999", "1000000000000000",
@@ -167,7 +168,7 @@ def gen_general_items(chk):
             t = (rng.choice(["", "-", "+"]) + str(rng.randint(0, 999)) + rng.choice(["", ".", ".5", ".25"]) +
                  rng.choice(["e", "E"]) + rng.choice(["", "-", "+"]) + str(rng.randint(0, 12)))
         items.append({"kind": "text", "text": t, "chars": list(t)})
-    nums = list(BOUNDARY) + ["100000000000000000000", "0.000000000001", "-123456789012345680000"]
+    nums = list(BOUNDARY) + ["-0", "100000000000000000000", "0.000000000001", "-123456789012345680000"]
     nn = 1200 if chk.tier == "quick" else 40000
     for _ in range(nn):
         nums.append(gen_number(rng, rng.randint(0, 8)))
@@ -231,27 +232,10 @@ def describe(case, ev, detail):
     return f"{case['a']} batch of {len(case['items'])}: {detail}"
 
 
-def _strict_validate_file(*a, **kw):
-    """vlib.validate_file recognises one-line <<"MISMATCH", ..>> / <<"KF", ..>> prints only; TLC wraps long tuples
-    over several lines.  Anything it did not recognise is a tool error here, never a silent pass."""
-    v = _orig_validate_file(*a, **kw)
-    nm = len(re.findall(r'<<\s*"MISMATCH"', v.out))
-    nk = len(re.findall(r'<<\s*"KF"', v.out))
-    if nm != len(v.mismatches) or nk != len(v.kf):
-        raise vlib.ToolError(f"unparsed MISMATCH/KF output of TLC ({nm} vs {len(v.mismatches)}, {nk} vs {len(v.kf)}): "
-                             + v.out[-1500:])
-    return v
-
-
-_orig_validate_file = vlib.validate_file
-
-
 def validate(chk, events, tag):
-    vlib.validate_file = _strict_validate_file
-    try:
-        out = vlib.validate("Trace_NumFmt", "Trace_NumFmt.cfg", events, chk.open_ids, tag, chunk_events=24, jobs=4)
-    finally:
-        vlib.validate_file = _orig_validate_file
+    # (Mismatch payloads of Trace_NumFmt are kept short; vlib raises a ToolError for any MISMATCH/KF print of TLC
+    # that it could not parse, e.g. a long tuple wrapped over several lines)
+    out = vlib.validate("Trace_NumFmt", "Trace_NumFmt.cfg", events, chk.open_ids, tag, chunk_events=24, jobs=4)
     for ci, off, detail in out["mismatch"]:
         if detail.startswith('<<"gen"'):
             raise vlib.ToolError("generator/driver facts and specification disagree: " + detail[:1500])
@@ -311,9 +295,19 @@ def run(chk):
                 "part, exact halves, 4999.. below halves, negatives) under 0, 0.0..0.000000, #,##0, #,##0.0.., 0%, "
                 "0.0%..; plus distinct General items (numbers; arbitrary, decimal-looking and exponent-form text) and "
                 "distinct (built-in id, finite f64) pairs incl. random bit patterns and calendar boundaries")
-    for evs in (events[0], events[-1]):
+    seen = set()
+    for evs in events:                      # one compact sample per kind of event, plus one per finding class
         e = evs[0]
-        chk.sample({"event": {k: (v[:2] if isinstance(v, list) else v) for k, v in e.items()}})
+        for it in e.get("items", [])[:40]:
+            key = (e["a"], it.get("fmt", it.get("kind", it.get("fid"))))
+            if e["a"] in seen and key in seen:
+                continue
+            if len(seen) >= 12:
+                break
+            seen.add(e["a"])
+            seen.add(key)
+            keep = ("s", "fmt", "kind", "text", "fid", "code", "out", "outws", "outcell", "outcome")
+            chk.sample({"event": e["a"], "item": {k: it[k] for k in keep if k in it}}, limit=8)
     chk.assumptions += [
         "Rust's f64 Display prints the shortest decimal string that round-trips (the driver checks s == "
         "parse(s).to_string() for every number; the trace specification requires that flag)",
